@@ -81,6 +81,9 @@ def run(ctx):
         "mid-instruction-last-word": ([N2, D0, N1, N2], [RUN] * 4),
         "halt-during-instruction": ([D0, N1, N1, N1], [RUN, RUN, STOP, STOP]),
         "error-halt-at-dispatch": ([D0, N1, N1], [RUN, ERR, ERR]),
+        # an instruction may take hundreds of edges (DIV: up to 517 plus waits): no edge budget may cut it short
+        "long-instruction": ([D0] + [N1, N2] * 300 + [D0, N1], [RUN] * 603),
+        "long-instruction-from-the-middle": ([N1, N2] * 300 + [D0, N1], [RUN] * 602),
         "halted-at-boundary": ([D0, D0], [STOP, STOP]),
         "halted-mid-instruction": ([N1, N1], [ERR, ERR]),
     }
@@ -90,7 +93,7 @@ def run(ctx):
     for sname, (seq, states) in scenarios.items():
         for mname, mv in modes.items():
             I = absint.Interp(p)
-            I.unroll = 12
+            I.unroll = max(12, len(seq) + 8)
             problems = []
 
             def edge_stub(I_, st, depth, callee, args, body, ln, seq=seq, states=states, problems=problems):
@@ -119,7 +122,7 @@ def run(ctx):
             done = [a in g.done for a in seq] + [True] * 60
             running = [s == RUN for s in states] + [False] * 60
             if mname == "Assembly":
-                want = reference_edges(done, running)
+                want = reference_edges(done, running, limit=len(seq) + 50)
             else:
                 want = 1
             other_writes = [e for e in I.events if e.kind == "write" and e.body is not None]
@@ -130,7 +133,8 @@ def run(ctx):
                    "a key clock in %s mode issues exactly the edges of the reference definition and has no other effect"
                    % mname, kb.loc(),
                    "scenario words %s states %s: edges issued %r, expected %d; final word %r; other writes %s; problems %s %s"
-                   % ([hex(a) for a in seq], states, c, want, idx, other_writes[:2], problems[:2], bad[:2]),
+                   % ([hex(a) for a in seq][:8] + (["... %d words" % len(seq)] if len(seq) > 8 else []), states[:8], c, want, idx,
+                      other_writes[:2], problems[:2], bad[:2]),
                    "A4 with loop unrolling; trigger_clock_edge replaced by the scripted abstract edge")
     # step_mode writers
     ws = {w["body"] for w in mirutil.field_writers(p, MACHINE, "step_mode")}
